@@ -147,6 +147,19 @@ def gen_and_run(rng, n, style):
     try:
         if style != 'nologin':
             do(['SI'])
+        if style in ('tree', 'treehold'):
+            # directed prefix: a parent, 1..3 children, sometimes a further candidate
+            c = next_c[0]; next_c[0] += 1
+            do(['PI', c, rng.choice(PEER_NAMES), True])
+            if rng.random() < 0.3:
+                do(['BL', c, 0], src=c)
+            else:
+                do(['BL', c, rng.choice([1, 3, 7])], src=c)
+                do(['BR', c, rng.choice(['root1', 'root2', 'me'])], src=c)
+            for _ in range(rng.choice([1, 1, 2, 3])):
+                c = next_c[0]; next_c[0] += 1
+                do(['PI', c, rng.choice(PEER_NAMES), False])
+            n += len(events)
         while len(events) < n:
             st = rig.state()
             live = [c for c in st['live'] if c not in busy]
@@ -154,7 +167,16 @@ def gen_and_run(rng, n, style):
             r = rng.random()
             srv_ok = not server_busy[0]
             f10_state = st['parent'] is not None and st['parent'] in st['children']
-            if r < 0.22 or not st['live']:
+            if style in ('tree', 'treehold') and st['parent'] in live and rng.random() < 0.35:
+                p = st['parent']
+                k = rng.random()
+                if k < 0.4:
+                    do(['CC', p])
+                elif k < 0.7:
+                    do(['BL', p, rng.choice([0, 2, 5, 9])], src=p)
+                else:
+                    do(['BR', p, rng.choice(ROOTS)], src=p)
+            elif r < 0.22 or not st['live']:
                 name = rng.choice(PEER_NAMES)
                 req = rng.random() < (0.55 if style != 'children' else 0.2)
                 c = next_c[0]
@@ -188,7 +210,7 @@ def gen_and_run(rng, n, style):
             elif r < 0.93:
                 if rig.held:
                     do(['R'])
-                elif style in ('hold', 'mixed'):
+                elif style in ('hold', 'mixed', 'treehold'):
                     do(['H'])
             elif r < 0.97 and style in ('session', 'nologin') and not rig.held:
                 do(['SD'] if st['session'] else ['SI'])
@@ -284,6 +306,12 @@ def monitor(events, obs):
         if o['parent'] is not None:
             if o['parent'] not in regs or o['parent'] not in o['live']:
                 add('parent-not-live', 'the parent is not a live distributed connection', {'step': i, 'parent': o['parent']})
+        # --- docs/source/DESIGN.rst: branch values on a connection other than the parent connection lead to a disconnect,
+        #     never to a change of parent while the parent is still connected
+        if prev['parent'] is not None and o['parent'] is not None and o['parent'] != prev['parent'] \
+                and not (ev[0] in ('CC', 'RD')):
+            add('parent-replaced-while-connected', 'another connection became the parent although the parent was not lost',
+                {'step': i, 'old': prev['parent'], 'new': o['parent'], 'event': ev})
         # --- docs/source/DESIGN.rst: choosing a parent disconnects every other distributed connection except the children
         if o['parent'] is not None and prev['parent'] is None and not o['held']:
             extra = [c for c in o['live'] if c != o['parent'] and c not in ch]
@@ -476,7 +504,7 @@ def valid(events):
 
 def run(run: Run):
     run.rule = ('adaptive random histories on the real DistributedNetwork/Network/PeerConnection stack over fake endpoints: login, then '
-                '<= 10 (quick) events among potential-parent lists, incoming/requested distributed connections of 4 peer names, branch '
+                '<= 10 (quick) events (after an optional directed prefix building a parent with 1..3 children) among potential-parent lists, incoming/requested distributed connections of 4 peer names, branch '
                 'level/root announcements (level 0, repeats, from candidates / children / the parent), EOF of parent/child/candidate, '
                 'ParentMinSpeed/ParentSpeedRatio/own stats at the limit boundaries, ResetDistributed, session loss/re-login, and Hold/Release '
                 'of the server write side (handlers suspended at the server send of _set_parent/_unset_parent); distinct = distinct event list; '
@@ -498,7 +526,7 @@ def run(run: Run):
 
     n_hist = 260 if run.tier == 'quick' else 2600
     cases = []
-    styles = ['mixed', 'hold', 'children', 'f10', 'session', 'plain', 'plain', 'mixed', 'nologin']
+    styles = ['mixed', 'tree', 'hold', 'treehold', 'children', 'tree', 'f10', 'session', 'plain', 'treehold', 'mixed', 'nologin']
     for i in range(n_hist):
         style = styles[i % len(styles)]
         n = run.rng.randrange(3, 12 if run.tier == 'quick' else 16)
